@@ -29,7 +29,7 @@ def item_failure(item):
     if k == "resolver-file-names":
         o = item.get("options", {})
         reserved = {"Context", "Omit", "Pick", "Promise", "GraphQLResolveInfo", "__Resolver", "__TypeResolver",
-                    o.get("schemaRootNamespace"), o.get("rootResolverType"), o.get("resolverOutputType")}
+                    o.get("schemaRootNamespace"), o.get("rootResolverType"), o.get("resolverOutputType")} | KEYWORDS
         return KIND_CLASS[k] if declared & reserved else None
     return "UNKNOWN"
 
